@@ -97,6 +97,12 @@ def _c12_chunk(chunk):
                         tr = retryenv.run_scenario(cfg, events, entry=entry, place=place,
                                                    force_mode=mode, site_fault=fault,
                                                    breaker_cfg=BREAKER_CFG,
+                                                   # python types of exceptions / aborts / results vary per
+                                                   # entry point; policies with a breaker treat an escaping
+                                                   # CircuitOpenError specially, so not that one there
+                                                   flavours=(None if idx % 2 else
+                                                             "nocircuit" if entry.split(".")[0] in ("Policy", "AsyncPolicy")
+                                                             else "all"),
                                                    hooks=fault is not None and fault["site"] in ("astart", "aend"),
                                                    async_callbacks=(entry.startswith("Async") and
                                                                     [False, True, "lambda"][idx % 3]))
